@@ -265,6 +265,13 @@ def check_workbook(sub, case):
             enc_xlsx.write_workbook(path, sheets, options)
         except Exception as error:
             raise HarnessError("cannot produce workbook for case %r: %s: %s" % (case, type(error).__name__, error))
+        if case.get("file_name"):
+            if os.sep in case["file_name"] or case["file_name"] in (os.curdir, os.pardir):
+                raise HarnessError("malformed file name %r" % (case["file_name"],))
+            renamed = os.path.join(folder, case["file_name"])
+            os.replace(path, renamed)
+            path = renamed
+            classes.append("file-name:" + os.path.splitext(case["file_name"])[1].lower())
         numbers = list(range(1, count + 1))
         if case.get("beyond"):
             numbers.append(count + 1)
@@ -659,11 +666,15 @@ def workbook_cases(draw):
         hidden = draw(st.lists(st.integers(0, count - 1), min_size=1, max_size=count - 1, unique=True))
         options["visibility"] = dict((str(index), draw(st.sampled_from(["hidden", "veryHidden"]))) for index in hidden)
     case = {"kind": "workbook", "sheets": distinguishable(sheets), "options": options}
+    if draw(st.integers(0, 3)) == 0:
+        # what a workbook is called says nothing about what it is (exports are often named .xls whatever they hold)
+        case["file_name"] = draw(st.sampled_from(WORKBOOK_FILE_NAMES))
     if count < 3 and draw(st.integers(0, 2)) == 0:
         case["beyond"] = True
     return case
 
 
+WORKBOOK_FILE_NAMES = ["case.xls", "CASE.XLS", "case.xlsm", "case.XLSX", "case", "case.ods", "case.csv", "case.xlsx.bak"]
 # characters that mean something in sheet names, sheet references, shells, glob patterns or URLs; a very long name
 WRITER_FILE_NAMES = ["export[1].xlsx", "sales 2020:Q1.xlsx", "what now?.xlsx", "'draft'.xlsx", "a*b.xlsx", "x" * 60 + ".xlsx",
                      "\xe4\u20ac \u4e2d.xlsx", "back\\slash.xlsx", "100%.xlsx", "a!b$c.xlsx", "History.xlsx", ".xlsx",
